@@ -134,18 +134,24 @@ def main():
   jobs = [(k, "grid") for k in chosen] + [(k, "tiny") for k in common.sample_keep(tiny, 40 if args.tier == "quick" else 10**6, args.seed)]
   if prop == "C05":
     jobs += [(k, "huge") for k in common.sample_keep(huge, 30 if args.tier == "quick" else 10**6, args.seed)]
+  if prop == "C04":
+    # 16-bit activations of small magnitude (statistics / 4096): scales around 1e-8, so that the parameters of different tensors
+    # differ by less than 1e-8 in absolute terms - they are different parameters all the same
+    small16 = [k for k in fams.get("constraint_2op", []) if any(m["a"] == "a16" for ms in dumps[k]["scn"]["mode"] for m in ms)
+               and not any(r == "c" for sub in dumps[k]["scn"]["subs"] for r in sub["trole"])]
+    jobs += [(k, "small16") for k in common.sample_keep(small16, 80 if args.tier == "quick" else 10**6, args.seed)]
   for k, variant in jobs:
     d = dumps[k]
     scn = d["scn"]
     rng_k = np.random.default_rng(args.seed + len(runs))
     try:
-      model, info = synth.build(scn, args.seed, const_fn={"grid": numeric.grid_const, "tiny": numeric.tiny_const, "huge": numeric.huge_const}[variant](rng_k))
+      model, info = synth.build(scn, args.seed, const_fn={"grid": numeric.grid_const, "tiny": numeric.tiny_const, "huge": numeric.huge_const, "small16": numeric.grid_const}[variant](rng_k))
     except synth.Unrealisable:
       continue
     if not policy_ok(scn, info["codes"]):
       continue
     try:
-      impl = pipeline.run_impl(scn, seed=args.seed, model=model, info=info, stats=numeric.small_stats(scn) if variant == "tiny" else "inject")
+      impl = pipeline.run_impl(scn, seed=args.seed, model=model, info=info, stats=numeric.small_stats(scn) if variant == "tiny" else numeric.small_stats(scn, 4096) if variant == "small16" else "inject")
     except ValueError as e:
       outcomes["recipe-refused"] = outcomes.get("recipe-refused", 0) + 1
       continue
@@ -157,15 +163,19 @@ def main():
     if impl["outcome"] != "done":
       continue
     if diffs:
-      # the implementation left the specification's predicted path (e.g. it returned where a rejection was predicted): no
-      # symbolic parameters to resolve, but the relational predicates are still evaluated on what it returned
+      # the implementation left the specification's predicted path (e.g. it returned where a rejection was predicted): the
+      # relational predicates are evaluated on what it returned, and (C04) the ORIGINAL tensors - whose ids are stable - are still
+      # compared with the parameters their own statistics / data give (the specification's term for them)
       drifted.append({"key": k, "scn": scn, "codes": info["codes"], "impl": impl})
-      continue
+      if prop != "C04" or d.get("pc") != "done":
+        continue
     ctx = numeric.Ctx(scn, impl)
     run = {"key": k, "scn": scn, "codes": info["codes"], "ctx": ctx, "dump": d, "tensors": [], "impl": impl, "variant": variant}
     outcomes["variant:" + variant] = outcomes.get("variant:" + variant, 0) + 1
     for si in range(len(scn["subs"])):
       for t, term in enumerate(d["R"][si]["par"]):
+        if diffs and (t >= len(scn["subs"][si]["trole"]) or not ctx.out_proj["subs"][si]["tensors"][t]["scale"] or term == ["none"]):
+          continue      # drifted run: only original tensors that both sides quantise
         # a float16 constant carries no annotation (par = none): the term its data was written under is in `data`
         dterms = d["R"][si].get("data", [])
         if term == ["none"] and t < len(dterms) and dterms[t][0] == "F16":
